@@ -125,11 +125,11 @@ class EighthSphere(Shape):
 
     def chop_tangential(self, **kwargs):
         """Chop circumferentially"""
-        for i, operation in enumerate(self.shell):
-            if (i + 1) % 3 == 0:
-                continue
-
-            operation.chop(1, **kwargs)
+        # one operation for each of the 4 directions; chopping any more specifies
+        # a direction twice, by blocks that see it from opposite ends
+        for i in (0, 1, 3, 6):
+            if i < len(self.shell):
+                self.shell[i].chop(1, **kwargs)
 
     ### Patches
     def set_start_patch(self, name: str) -> None:
